@@ -317,7 +317,17 @@ fn stress(rep: &mut Report, merges: u32, seed: u64) {
     };
     let mut k = seed ^ 0xabcdef;
     for x in 0..merges {
-        tx.modify(|slot| slot.get_or_insert_with(Vec::new).push(x)).expect("receiver alive");
+        if tx.modify(|slot| slot.get_or_insert_with(Vec::new).push(x)).is_err() {
+            // the consumer drops its receiver only after recv() answered None, i.e. it was told the
+            // channel is closed while this sender is alive
+            rep.fail(
+                "stress",
+                "stress_closed_while_sender_alive",
+                &format!("modify() number {x} failed: the consumer saw end-of-channel and dropped the receiver while the sender was alive"),
+                serde_json::json!({"merges": merges, "seed": seed}),
+            );
+            return;
+        }
         k = k.wrapping_mul(6364136223846793005).wrapping_add(1442695040888963407);
         if (k >> 58) == 0 {
             std::thread::yield_now();
@@ -389,7 +399,8 @@ fn close_race(rep: &mut Report, iterations: u32, seed: u64) {
             std::hint::spin_loop();
         }
         for x in 0..n {
-            tx.modify(|slot| slot.get_or_insert_with(Vec::new).push(x)).unwrap();
+            // an Err here means the consumer already saw end-of-channel; it shows as a lost update below
+            let _ = tx.modify(|slot| slot.get_or_insert_with(Vec::new).push(x));
         }
         drop(tx);
         let started = Instant::now();
